@@ -3,6 +3,7 @@ import DryocVerif.Proofs.ProtectedRel
 import DryocVerif.Proofs.ProtectedRelExtra
 import DryocVerif.Proofs.GenProtected
 import DryocVerif.Proofs.ProtectedBalance
+import DryocVerif.Proofs.ProtectedLedger
 /-
 C15 — the page-aligned allocator never hands back memory that still holds data: every release
 event `(size, nonzero)` observed by the harness has `nonzero = 0`, for every token history, every
@@ -19,11 +20,16 @@ exactly that block (`objDrop_releases`, `grow_releases_old`, `locked_resize_rele
 teardown logs exactly the blocks of the slots that were still live (`finish_releases_all`); and the
 zeroing write of `deallocate` goes to writable pages (`wipe_on_writable_pages`).
 
-The third part (`alloc_release_balance`) is the BALANCE over a whole run plus teardown: the multiset
-of released sizes equals the multiset of sizes passed to `alloc` — every block ever allocated is
-released exactly once (no leak, no double free).  The model logs releases but not allocations, so
-the allocation side is a ghost log (`stepAllocs`, `runAllocs` in `Proofs/ProtectedBalance.lean`),
-tied to the model through the bump pointer (`alloc_log_accounts_for_brk`).
+The third part is the BALANCE over a whole run plus teardown, in two forms.
+(1) `alloc_release_balance` — SIZES ONLY: the multiset of released sizes (from the release log the harness sees)
+equals the multiset of sizes passed to `alloc` (a ghost log mirroring the branches that reach `alloc`: `stepAllocs`,
+`runAllocs` in `Proofs/ProtectedBalance.lean`, tied to the model through the bump pointer,
+`alloc_log_accounts_for_brk`).  No hypothesis at all, but it cannot tell two blocks of the same size apart.
+(2) `alloc_release_balance_pairs` — BLOCKS: `alloc` and `dealloc` themselves append `(base page, size)` to two ghost
+lists of the kernel (`Kernel.al`, `Kernel.fr`); after the teardown the freed list is a permutation of the allocated
+list and the allocated bases are pairwise different — every block handed out is given back exactly once, no block is
+freed twice, nothing is freed that was not allocated (`ledger_reachable` for the states on the way).  The ledger is
+part of the invariant of C14, so this form carries its hypotheses (`0 < c.P`, `NoProtZeroize`).
 
 As everywhere in the protected-memory model, the only system call that can fail is `mlock`
 (header of `Model/Protected.lean`); `deallocate`'s own `mprotect` calls cannot fail here.
@@ -102,39 +108,40 @@ theorem objDrop_empty_silent (c : Cfg) (hw : c.wipe = true) (m : Mach) (o : Obj)
 /-- `Vec::resize` beyond the capacity reallocates: exactly the OLD block (old capacity) is released,
 zeroed; a resize within the capacity releases nothing. -/
 theorem grow_releases_old (c : Cfg) (hw : c.wipe = true) (m : Mach) (v : PVec) (n : Nat)
-    (hl : v.len ≤ v.cap) :
-    (v.cap < n → 0 < v.cap → (vecResize c m v n).1.rel = m.rel ++ [(v.cap, 0)]) ∧
-    (n ≤ v.cap → (vecResize c m v n).1.rel = m.rel) := by
-  rw [vecResize_rel c hw m v n hl]
+    (hl : v.len ≤ v.cap) (b : UInt8 := 0) :
+    (v.cap < n → 0 < v.cap → (vecResize c m v n b).1.rel = m.rel ++ [(v.cap, 0)]) ∧
+    (n ≤ v.cap → (vecResize c m v n b).1.rel = m.rel) := by
+  rw [vecResize_rel c hw m v n hl b]
   refine ⟨fun h1 h2 => ?_, fun h1 => ?_⟩
   · rw [if_neg (by omega), relOf_pos h2]
   · rw [if_pos h1]; simp
 
 /-- resize of a `Locked` region is resize-by-copy (new block, lock, copy, drop the old region): when
 it succeeds exactly the old block is released, zeroed -/
-theorem locked_resize_releases_old (c : Cfg) (hw : c.wipe = true) (m : Mach) (v nv : PVec) (n : Nat)
-    (h : (lockedResize c m v n).2 = some nv) (hc : 0 < v.cap) :
-    (lockedResize c m v n).1.rel = m.rel ++ [(v.cap, 0)] := by
-  rw [lockedResize_rel c hw, h]; simp [relOf_pos hc]
+theorem locked_resize_releases_old (c : Cfg) (hw : c.wipe = true) (m : Mach) (v nv : PVec) (rc : LM × PM)
+    (n : Nat) (b : UInt8) (h : (lockedResize c m v rc n b).2 = some nv) (hc : 0 < v.cap) :
+    (lockedResize c m v rc n b).1.rel = m.rel ++ [(v.cap, 0)] := by
+  rw [lockedResize_rel c hw m v rc n b, h]; simp [relOf_pos hc]
 
 /-- … and when the new block cannot be locked (the `expect` panics) exactly the half-built NEW block
 is released, zeroed; the old region is untouched -/
-theorem locked_resize_panic_releases_new (c : Cfg) (hw : c.wipe = true) (m : Mach) (v : PVec) (n : Nat)
-    (h : (lockedResize c m v n).2 = none) :
-    0 < n ∧ (lockedResize c m v n).1.rel = m.rel ++ [(growCap 0 n, 0)] := by
+theorem locked_resize_panic_releases_new (c : Cfg) (hw : c.wipe = true) (m : Mach) (v : PVec) (rc : LM × PM)
+    (n : Nat) (b : UInt8) (h : (lockedResize c m v rc n b).2 = none) :
+    0 < n ∧ (lockedResize c m v rc n b).1.rel = m.rel ++ [(growCap 0 n, 0)] := by
   have hn : n ≠ 0 := by
     intro h0
     subst h0
-    have hlen := vecResize_len c m PVec.empty 0
+    have hlen := vecResize_len c m PVec.empty 0 b
     unfold lockedResize lockV dryocMlock at h
     simp [hlen] at h
   refine ⟨by omega, ?_⟩
-  rw [lockedResize_rel c hw, h, vecResize_empty_cap]
+  rw [lockedResize_rel c hw m v rc n b, h, vecResize_empty_cap c m n b]
   simp [hn, relOf_pos (growCap_ge 0 n).2]
 
 /-- the block of a clone has capacity `len`; dropping the clone releases exactly it -/
-theorem clone_drop_releases (c : Cfg) (hw : c.wipe = true) (m : Mach) (v : PVec) (st : St) (h : 0 < v.len) :
-    (objDrop c (vecClone c m v).1 ⟨st, (vecClone c m v).2⟩).rel = m.rel ++ [(v.len, 0)] := by
+theorem clone_drop_releases (c : Cfg) (hw : c.wipe = true) (m : Mach) (v : PVec) (st : St) (rc : LM × PM)
+    (h : 0 < v.len) :
+    (objDrop c (vecClone c m v).1 ⟨st, (vecClone c m v).2, rc⟩).rel = m.rel ++ [(v.len, 0)] := by
   rw [objDrop_rel c hw, vecClone_rel]
   simp only [vecClone_cap]
   rw [relOf_pos h]
@@ -193,12 +200,14 @@ theorem step_balance (z : Nat) (c : Cfg) (s : State) (t : Tok) :
 theorem finish_balance (c : Cfg) (s : State) : sz (finish c s).m = capsOf s.slots :=
   sz_finish c s
 
-/-- **`alloc_release_balance`**: over a whole run from the initial state plus the final teardown —
+/-- **`alloc_release_balance`** (balance of SIZES): over a whole run from the initial state plus the final teardown —
 any token list, any lock oracle, refusals and panics included — the list of ALL released sizes
 (`runReleases`: the release log of every token, then of `finish`) is a permutation of the list of
-ALL sizes passed to `alloc` (`runAllocs`).  So every block ever handed out by the page-aligned
-allocator goes back to it exactly once: nothing leaks, nothing is freed twice, and nothing is freed
-that was not allocated.
+ALL sizes passed to `alloc` (`runAllocs`).
+DOCSTRING CORRECTED: this is a statement about SIZES only — for every size, as many blocks of that size are released
+as are allocated.  It does NOT by itself say that each individual block goes back exactly once (a double free of one
+16-byte block together with a leak of another would balance).  That statement, on `(base, size)` pairs with pairwise
+different bases, is `alloc_release_balance_pairs` below.
 
 The allocation log is a GHOST (the model's `alloc` does not log): `stepAllocs c s t` mirrors the two
 places that call `alloc` — `vecResize` when it reallocates (`growCap cap n`) and `vecClone` of a
@@ -208,6 +217,38 @@ balance). -/
 theorem alloc_release_balance (c : Cfg) (oracle : Nat → Bool) (toks : List Tok) :
     (runReleases c (State.init oracle) toks).Perm (runAllocs c (State.init oracle) toks) :=
   Proofs.Protected.alloc_release_balance c oracle toks
+
+/-- **`alloc_release_balance_pairs`** (balance of BLOCKS): `alloc` appends `(base page, size)` to the ghost list
+`Kernel.al`, `dealloc` appends `(base page, capacity)` to `Kernel.fr`.  After a whole run from the initial state plus
+the teardown — any oracle, refusals and panics included — the freed list is a PERMUTATION of the allocated list,
+the allocated bases are pairwise different (so the pairs identify blocks), and consequently no pair occurs twice in
+the freed list: every block handed out by the allocator is given back exactly once. -/
+theorem alloc_release_balance_pairs (c : Cfg) (hP : 0 < c.P) (oracle : Nat → Bool) (toks : List Tok)
+    (hz : NoProtZeroize c (State.init oracle) toks) :
+    let e := finish c (runState c (State.init oracle) toks)
+    e.m.k.fr.Perm e.m.k.al ∧ (e.m.k.al.map Prod.fst).Nodup ∧ e.m.k.fr.Nodup :=
+  ledger_finish hP (inv_runState hP toks (inv_init c oracle) hz)
+
+/-- … and on the way: in every reachable state the allocated blocks are the freed ones plus those of the live
+slots, with pairwise different bases below the bump pointer -/
+theorem ledger_reachable (c : Cfg) (hP : 0 < c.P) (oracle : Nat → Bool) (toks : List Tok)
+    (hz : NoProtZeroize c (State.init oracle) toks) :
+    let s := runState c (State.init oracle) toks
+    s.m.k.al.Perm (s.m.k.fr ++ ownedSlots s.slots) ∧ (s.m.k.al.map Prod.fst).Nodup ∧
+    ∀ b ∈ s.m.k.al.map Prod.fst, b < s.m.k.brk :=
+  ledger_of_inv (inv_runState hP toks (inv_init c oracle) hz)
+
+/-- non-vacuity witness (`alloc_release_balance_pairs`, `ledger_reachable`): the run of the witness below — two
+blocks of the SAME size 16 among the five, told apart by their bases 1 and 4 -/
+example :
+    let c : Cfg := { cNoWipe with n := 16, wipe := true }
+    let toks : List Tok := [⟨.new, 0⟩, ⟨.clone, 0⟩, ⟨.resize 40, 1⟩, ⟨.lock, 0⟩, ⟨.failfrom 1, 0⟩,
+      ⟨.resize 64, 0⟩, ⟨.fsl 9, 0⟩, ⟨.drop, 1⟩]
+    let s := runState c (State.init fun _ => true) toks
+    s.m.k.al = [(1, 16), (4, 16), (7, 40), (10, 64), (13, 9)] ∧ s.m.k.fr = [(4, 16), (10, 64), (13, 9), (7, 40)] ∧
+    ownedSlots s.slots = [(1, 16)] ∧ (finish c s).m.k.fr = [(4, 16), (10, 64), (13, 9), (7, 40), (1, 16)] ∧
+    NoProtZeroize c (State.init fun _ => true) toks := by
+  decide
 
 /-- the same from an arbitrary state: what is released = what the live slots owned + what was
 allocated on the way -/
@@ -244,11 +285,13 @@ example :
 restores the guards: the kernel after `deallocate` is the result of exactly these three `mprotect`
 calls in this order, and right after the first one every byte `ptr + off`, `off < cap`, lies on a
 `rw` page — whatever the rights were before (read-only, no-access) — so the zeroing write is to
-writable memory. -/
+writable memory.  STATEMENT CHANGED: the kernel after `deallocate` additionally carries the entry `(base, cap)` in
+the ghost free log `Kernel.fr` (`alloc_release_balance_pairs`); permissions, lock flags and `brk` are those of the
+three calls. -/
 theorem wipe_on_writable_pages (c : Cfg) (hP : 0 < c.P) (m : Mach) (v : PVec) :
-    (dealloc c m v).k =
-      mprotect c.P (mprotect c.P (mprotect c.P m.k (ptr c v) v.cap .rw) (ptr c v - c.P) c.P .rw)
-        (ptr c v - c.P + (c.P + pageRound c.P v.cap)) c.P .rw ∧
+    (let k3 := mprotect c.P (mprotect c.P (mprotect c.P m.k (ptr c v) v.cap .rw) (ptr c v - c.P) c.P .rw)
+        (ptr c v - c.P + (c.P + pageRound c.P v.cap)) c.P .rw
+     (dealloc c m v).k = { k3 with fr := k3.fr ++ [(v.base, v.cap)] }) ∧
     ∀ off, off < v.cap → (mprotect c.P m.k (ptr c v) v.cap .rw).perm ((ptr c v + off) / c.P) = .rw :=
   ⟨dealloc_kernel c m v, fun _ hoff => dealloc_first_rw hP m.k v hoff⟩
 
